@@ -9,6 +9,8 @@ import (
 	"sort"
 	"strings"
 	"time"
+
+	"golang.org/x/tools/go/ssa"
 )
 
 const repoRoot = "/repo"
@@ -37,7 +39,7 @@ func defaultConfig() *runConfig {
 		MaxSteps:      3000000,
 		MaxPermute:    3,
 		MaxPaths:      400000,
-		SolverKind:    "z3",
+		SolverKind:    "z3-new",
 		SolverTimeout: 10000,
 	}
 }
@@ -155,6 +157,21 @@ func loadForModule(module string, pkgs []string) (*program, error) {
 		"github.com/wI2L/jsondiff",
 		"context",
 		"errors",
+	}
+	p.pure = map[string]bool{
+		"(*github.com/orda-io/orda/client/pkg/model.Timestamp).Compare":   true,
+		"(*github.com/orda-io/orda/client/pkg/model.OperationID).Compare": true,
+	}
+	// harness predicates named vfp* are pure scalar functions: summarised too
+	for _, pkg := range p.prog.AllPackages() {
+		if !p.interpreted(pkg.Pkg.Path()) {
+			continue
+		}
+		for name, mem := range pkg.Members {
+			if fn, ok := mem.(*ssa.Function); ok && strings.HasPrefix(name, "vfp") {
+				p.pure[fn.String()] = true
+			}
+		}
 	}
 	return p, nil
 }
